@@ -190,10 +190,13 @@ def const_value(term, depth=0):
     if t[0] == "field" and t[2] == "0" and norm(t[1])[0] == "bin" and norm(t[1])[1].endswith("WithOverflow"):
         i = norm(t[1])
         t = ("bin", i[1][:-len("WithOverflow")], i[2], i[3])
-    if t[0] == "bin" and t[1] in ("Add", "Sub", "Mul", "Shl", "Shr"):
+    if t[0] == "bin" and t[1] in ("Add", "Sub", "Mul", "Shl", "Shr", "Div", "Rem"):
         a, b = const_value(t[2], depth + 1), const_value(t[3], depth + 1)
         if a is None or b is None:
             return None
+        if t[1] in ("Div", "Rem"):
+            # operands here are unsigned sizes and counts; a negative or zero one is left alone
+            return None if a < 0 or b <= 0 else (a // b if t[1] == "Div" else a % b)
         return {"Add": a + b, "Sub": a - b, "Mul": a * b, "Shl": a << b if 0 <= b < 128 else None, "Shr": a >> b if 0 <= b < 128 else None}[t[1]]
     return None
 
